@@ -415,6 +415,84 @@ func impostor(res *core.Result, r *rand.Rand, idA, idB, idM *m.Address, recorded
 	}
 	res.Count("impostor_wrong_key_refused", 1)
 	res.Case("impostor|wrong-key|"+class.name, true)
+
+	// (3) two-step: first a request naming A's address with the impostor's key (refused), then, against
+	// the same router, A's genuine public identity signed with the impostor's key.
+	victim := wire.NewRouter(idB, class.b)
+	poison := *idM
+	poison.PublicAddress = m.PublicAddress{IP: idA.IP, Hash: idM.Hash, Type: idM.Type, PublicKey: idM.PublicKey}
+	s1 := runHandshake(nil, idB, class.a, class.b, nil, wire.NewRouter(&poison, class.a), victim)
+	s1.close()
+	time.Sleep(3 * time.Millisecond)
+	fake2 := *idM
+	fake2.PublicAddress = idA.PublicAddress
+	s2 := runHandshake(nil, idB, class.a, class.b, nil, wire.NewRouter(&fake2, class.a), victim)
+	defer s2.close()
+	if !s1.ok || !s2.ok {
+		res.Inconcl("impostor two-step: watchdog")
+		return
+	}
+	if reg, what := registered(victim, idA); reg || s2.rb.Err == nil {
+		res.Violate("link-registered-for-impostor:two-step", fmt.Sprintf("after a refused request that named %s with a foreign key, the same router completed a handshake for %s with someone who signs with that foreign key (%s)", idA.IP, idA.IP, what), map[string]any{"config": class.name})
+		return
+	}
+	res.Count("impostor_two_step_refused", 1)
+	res.Case("impostor|two-step-key-poisoning|"+class.name, true)
+
+	// (4) a router connected to itself (its client role spliced to its server role). The two roles share one
+	// signed-timestamp filter, so the server role starts a little later and the attempt is repeated: most
+	// message orders abort for that reason alone.
+	for attempt := 0; attempt < 10; attempt++ {
+		self := wire.NewRouter(idA, class.a)
+		w := wire.New()
+		type out struct {
+			l   interface{ Close(func()) }
+			err error
+		}
+		ca, cb := make(chan out, 1), make(chan out, 1)
+		go func() {
+			l, err := self.Inst.PeeringV.VerifSetupLink(w.A, wire.URL, true)
+			ca <- out{l, err}
+		}()
+		time.Sleep(time.Duration(2+attempt%3) * time.Millisecond)
+		go func() {
+			l, err := self.Inst.PeeringV.VerifSetupLink(w.B, wire.URL, false)
+			cb <- out{l, err}
+		}()
+		var oa, ob out
+		got := 0
+		deadline := time.After(15 * time.Second)
+		for got < 2 {
+			select {
+			case oa = <-ca:
+				got++
+				if oa.err != nil {
+					w.A.Close()
+					w.B.Close()
+				}
+			case ob = <-cb:
+				got++
+				if ob.err != nil {
+					w.A.Close()
+					w.B.Close()
+				}
+			case <-deadline:
+				w.A.Close()
+				w.B.Close()
+				res.Inconcl("self-connect: watchdog")
+				return
+			}
+		}
+		reg, what := registered(self, idA)
+		w.A.Close()
+		w.B.Close()
+		if reg || oa.err == nil || ob.err == nil {
+			res.Violate("link-registered-to-self", fmt.Sprintf("a router whose own messages were reflected into its other role registered a link to itself (%s)", what), map[string]any{"config": class.name, "attempt": attempt})
+			return
+		}
+	}
+	res.Count("self_connect_refused", 1)
+	res.Case("reflect|self-connect-both-roles|"+class.name, true)
 }
 
 func parallel(n int, fn func(w int)) {
